@@ -49,7 +49,9 @@ fn run_group(g: &Group, r: &mut Rng, out: &mut Out) {
         let structured = p.body.iter().any(|x| matches!(x, PG::Eq(_, t) if matches!(t, crate::term::T::Cons(..) | crate::term::T::Comp(..))));
         if g.fd && !structured {
             let (lo, hi) = window(&p.body);
-            if let Some(sols) = fd_solutions(p.nvars, p.nq, &p.body, lo, hi) {
+            if !crate::fdgen::fd_well_formed(p) {
+                // a case line that lost a domain is outside the property: not judged
+            } else if let Some(sols) = fd_solutions(p.nvars, p.nq, &p.body, lo, hi) {
                 if sols.len() != w.len() {
                     fail = Some(format!("{} answers, brute force finds {} solutions (with multiplicity per path)", w.len(), sols.len()));
                 }
@@ -118,6 +120,10 @@ fn corpus() -> Vec<&'static str> {
         "prog 2 1 0 - fresh conj 2 neq v0 v1 eq v1 i2 conde 2 1 eq v0 i1 1 eq v0 i2",
         // a constraint posted on names that are aliased afterwards, the aliases narrowed to one value by propagation (C04-k)
         "prog 4 2 0 - infd cons v0 cons v1 cons v2 cons v3 nil V 3 1 2 3 ltefd v0 v1 eq v0 v2 eq v1 v3 ltefd i3 v2 conde 2 1 eq v3 i3 1 ltefd v3 i1",
+        // two SPARSE domains on one variable, the second inside the bounds of the first and holding a value from one of its holes (C04-f)
+        "prog 1 1 0 - infd v0 V 3 1 3 5 infd v0 V 3 2 3 4",
+        "prog 2 2 0 - infd v0 V 3 1 3 5 infd v1 V 3 2 3 4 eq v0 v1",
+        "prog 2 1 0 - infd v0 V 4 0 2 4 6 infd v1 V 3 1 2 3 diseqfd v1 i2 eq v1 v0",
     ]
 }
 
